@@ -66,6 +66,11 @@ func IntPoly(v ssa.Value, leaf func(ssa.Value) (*Poly, bool)) (*Poly, bool) {
 		}
 	case *ssa.Call:
 		if b, ok := x.Call.Value.(*ssa.Builtin); ok && b.Name() == "len" && len(x.Call.Args) == 1 {
+			if leaf != nil {
+				if p, ok := leaf(x); ok {
+					return p, true
+				}
+			}
 			if n := valueName(x.Call.Args[0]); n != "" {
 				return PSym("len(" + n + ")"), true
 			}
